@@ -132,6 +132,7 @@ func KeyshareUserResponseRequest[T comparable](
 	userResponse := new(big.Int).Add(randomizers["secretkey"], new(big.Int).Mul(challenge, userSecret))
 
 	return KeyshareResponseRequest[T]{
+		Context:            context,
 		Nonce:              nonce,
 		UserResponse:       userResponse,
 		IsSignatureSession: signature,
